@@ -107,6 +107,10 @@ pub fn menu() -> Vec<String> {
     for x in ["v = [0; 18446744073709551615]", "v = \"[9; 18446744073709551615]\"", "v = [0; 4]", "v = [1, 2; 3]", "v = [0; 18446744073709551616]", "v = 0..18446744073709551615", "v = [0; -1]"] {
         v.push(x.to_string());
     }
+    // floats whose exponent does not fit anything (never expanded digit by digit)
+    for x in ["v = 1e9223372036854775808", "v = 2.5e18446744073709551615", "v = 1e-9223372036854775808", "v = 1e18446744073709551616", "v = [1e9223372036854775808]", "v = \"1e9223372036854775808\"", "v = 1e6", "v = 4.0", "v = 2.5e3"] {
+        v.push(x.to_string());
+    }
     v.push(format!("v = -{}.0", "9".repeat(320)));
     v.push(format!("v = {}", "9".repeat(320)));
     for n in [15usize, 16, 17, 21, 22, 31, 32, 33, 63, 64, 65, 127, 128, 129, 255, 256, 257] {
